@@ -92,6 +92,7 @@ impl C16 {
     /// forked matrix: token-factory fee configuration x attached funds
     fn payment_matrix(&mut self, w: &mut World, rep: &mut Reporter) {
         let snap = w.snapshot();
+        let pm_fc = crate::ops::observe(w).pm_fc;
         let saved_tf = w.tf_fees.borrow().clone();
         let tf_cfgs: Vec<Vec<Coin>> = vec![
             vec![],
@@ -185,7 +186,7 @@ impl C16 {
             }
             // accepted: where did the money go
             let mut problems = vec![];
-            let to_fc: u128 = out.log().iter().filter(|e| e.kind == BankKind::Send && e.to == w.fc.as_str() && e.from == w.pm.as_str()).flat_map(|e| e.coins.iter()).filter(|c| c.denom == fee.denom).map(|c| c.amount.u128()).sum();
+            let to_fc: u128 = out.log().iter().filter(|e| e.kind == BankKind::Send && e.to == pm_fc.as_str() && e.from == w.pm.as_str()).flat_map(|e| e.coins.iter()).filter(|c| c.denom == fee.denom).map(|c| c.amount.u128()).sum();
             if to_fc != fee.amount.u128() {
                 problems.push(format!("fee collector received {to_fc}{}, creation fee is {}", fee.denom, fee));
             }
